@@ -28,6 +28,8 @@ func NewListInputCoercion() *ListInputCoercion {
 		withCustomVariables: true,
 	}
 	walker.RegisterEnterDocumentVisitor(visitor)
+	// the visitor looks variables up by name in the operation it is in (operationDefinitionRef)
+	walker.RegisterEnterOperationVisitor(visitor)
 	walker.RegisterVariableDefinitionVisitor(visitor)
 	return &ListInputCoercion{
 		w: walker,
@@ -53,6 +55,8 @@ func inputCoercionForList(walker *astvisitor.Walker) {
 		Walker: walker,
 	}
 	walker.RegisterEnterDocumentVisitor(&visitor)
+	// the visitor looks variables up by name in the operation it is in (operationDefinitionRef)
+	walker.RegisterEnterOperationVisitor(&visitor)
 	walker.RegisterVariableDefinitionVisitor(&visitor)
 }
 
